@@ -616,6 +616,8 @@ structure Facts where
   truncatesTornTail : Tri
   shortHeaderIsEOF : Tri
   tornDataIsEOF : Tri
+  /-- Compact / CompactFromIndex give up (temp removed, no rename) when closing the temp fails -/
+  closeErrorAborts : Tri
   /-- the reader assumptions of the model (established by C04): a payload that is not the one
       written fails the checksum; the decoded length and the entry count are checked -/
   validatesCrc : Tri
@@ -645,7 +647,7 @@ def modelApplies (f : Facts) : Bool :=
   f.closeFsyncs.isYes && f.opensExistingForAppend.isYes && f.shortHeaderIsEOF != .unknown && f.tornDataIsEOF != .unknown &&
   f.truncatesTornTail != .unknown && f.clearsBufferBeforeWrite != .unknown && f.rollsBackFailedBlock != .unknown &&
   f.restoresOffsetAfterHeader != .unknown && f.splitsOversizedBuffer != .unknown && f.flushesAtCountBound.isYes &&
-  readerApplies f
+  f.closeErrorAborts.isYes && readerApplies f
 
 /-- the defects the current failure handling exposes (each reproduced by the correspondence run;
     `failed_write_drops_entries` is the kernel-checked witness that refutes `Holds`) -/
